@@ -229,25 +229,29 @@ def run(repo: Repo, chk: Check) -> None:
     #        COMMIT can fail on has to come BEFORE the first call that draws identifiers from that context (aggregate_lazy_diff)
     chk.set_clause('C22.5')
     CI = 'pytezos.michelson.instructions.jupyter.CommitInstruction'
-    ce = repo.find_method(CI, 'execute')
-    chk.require(ce is not None, 'CommitInstruction.execute not found')
-    g = CFG(ce.node)
-    muts = g.nodes_where(lambda n: any(isinstance(c.func, ast.Attribute) and c.func.attr == 'aggregate_lazy_diff' for e in node_exprs(n) for c in calls_in(e)))
-    chk.require(bool(muts), 'COMMIT: aggregate_lazy_diff call not found')
+    ce0 = repo.find_method(CI, 'execute')
+    chk.require(ce0 is not None, 'CommitInstruction.execute not found')
+    # ... and the END step of a RUN cell (MichelsonProgram.end) draws identifiers the same way
+    pe = repo.find_method('pytezos.michelson.program.MichelsonProgram', 'end')
+    chk.require(pe is not None, 'MichelsonProgram.end not found')
+    for ce in (ce0, pe):
+      g = CFG(ce.node)
+      muts = g.nodes_where(lambda n: any(isinstance(c.func, ast.Attribute) and c.func.attr == 'aggregate_lazy_diff' for e in node_exprs(n) for c in calls_in(e)))
+      chk.require(bool(muts), f'{ce.qualname}: aggregate_lazy_diff call not found')
 
-    def is_check(n):
-        a = n.ast
-        if isinstance(a, (ast.Raise, ast.Assert)):
-            return True
-        return any(isinstance(c.func, ast.Attribute) and c.func.attr in ('assert_type_equal', 'assert_type_in') for e in node_exprs(n) for c in calls_in(e))
+      def is_check(n):
+          a = n.ast
+          if isinstance(a, (ast.Raise, ast.Assert)):
+              return True
+          return any(isinstance(c.func, ast.Attribute) and c.func.attr in ('assert_type_equal', 'assert_type_in') for e in node_exprs(n) for c in calls_in(e))
 
-    checks = g.nodes_where(is_check)
-    late = []
-    for m_ in muts:
-        for c_ in checks:
-            if c_ is not m_ and g.paths_avoiding(m_, c_, set()) is not None:
-                late.append((c_.line, norm(c_.ast)[:70]))
-    chk.ob('R-PATH', ce.qualname, not late, 'no validation of COMMIT is reachable after aggregate_lazy_diff has drawn identifiers', ce.loc,
-           {'checks': len(checks), 'after_the_mutation': sorted(set(late))[:3]},
-           what=f'COMMIT can still fail at {sorted(set(late))[:2]} after aggregate_lazy_diff advanced the identifier counters of the context the big_maps point to: '
-                'the failed cell is rolled back but its identifiers are spent (later COMMITs report other ids)')
+      checks = g.nodes_where(is_check)
+      late = []
+      for m_ in muts:
+          for c_ in checks:
+              if c_ is not m_ and g.paths_avoiding(m_, c_, set()) is not None:
+                  late.append((c_.line, norm(c_.ast)[:70]))
+      chk.ob('R-PATH', ce.qualname, not late, f'no validation of {ce.cls.name}.{ce.name} is reachable after aggregate_lazy_diff has drawn identifiers', ce.loc,
+             {'checks': len(checks), 'after_the_mutation': sorted(set(late))[:3]},
+             what=f'{ce.cls.name}.{ce.name} can still fail at {sorted(set(late))[:2]} after aggregate_lazy_diff advanced the identifier counters of the context the big_maps point to: '
+                  'the failed cell is rolled back but its identifiers are spent (later COMMITs report other ids)')
